@@ -120,6 +120,7 @@ def node_lists(draw, max_nodes=24):
     """a DAG as a node list (children precede parents; root is the last node): sharing and equal copies occur"""
     n_atoms = draw(st.integers(1, 6))
     nodes = [("a", draw(ATOMS)) for _ in range(n_atoms)]
+    size = [1] * n_atoms  # expanded (tree) size: bounded so that walks over unshared copies stay cheap
     n_pairs = draw(st.integers(0, max_nodes))
     for _ in range(n_pairs):
         k = len(nodes)
@@ -128,7 +129,16 @@ def node_lists(draw, max_nodes=24):
         j = draw(st.integers(max(0, k - 4), k - 1)) if draw(st.booleans()) else draw(st.integers(0, k - 1))
         if draw(st.booleans()):
             i, j = j, i
+        if size[i] + size[j] + 1 > 4000:
+            # keep the larger child, pair it with an atom
+            if size[i] >= size[j]:
+                j = draw(st.integers(0, n_atoms - 1))
+            else:
+                i = draw(st.integers(0, n_atoms - 1))
+        if size[i] + size[j] + 1 > 8000:
+            i = j = draw(st.integers(0, n_atoms - 1))
         nodes.append(("p", i, j))
+        size.append(size[i] + size[j] + 1)
     return nodes
 
 
